@@ -553,6 +553,10 @@ fn part3b(deadline: &Deadline) -> Stats {
         Stmt::Let("i".into(), bin(BinOp::Add, i(), lit(1))),
         Stmt::Let("k".into(), bin(BinOp::Div, lit(1), lit(0))),
         Stmt::Repeat(lit(2), vec![Entry::Paren(bin(BinOp::Div, lit(4), name("n"))), l(0), Entry::X]),
+        // declared signals that read no output (the test stays static) and cannot be evaluated
+        Stmt::Declare("W".into(), bin(BinOp::Div, lit(1), lit(0))),
+        Stmt::Declare("W2".into(), Expr::SignExt(Box::new(lit(4)), Box::new(lit(8)))),
+        Stmt::Declare("W3".into(), random(lit(1))),
     ];
     let blocks = vec![Block::Loop("i".into(), lit(3)), Block::Loop("j".into(), bin(BinOp::Div, lit(2), lit(0)))];
     let mut total = Stats::default();
@@ -562,6 +566,12 @@ fn part3b(deadline: &Deadline) -> Stats {
             let mut body = vec![Stmt::Let("i".into(), lit(0))];
             body.extend(sp.unrank(k, idx));
             let prog = Program { header: vec!["A".into(), "B".into(), "Q".into()], body };
+            {
+                let d = prog.declares();
+                if (1..d.len()).any(|i| d[..i].iter().any(|x| x.0 == d[i].0)) {
+                    return; // the same name declared twice is not a valid program
+                }
+            }
             let text = text(&prog);
             let Ok(tc) = load(&text, &sigs, DEFAULT_BUDGET) else { return };
             st.evals += 1;
